@@ -31,6 +31,7 @@ import EaselModel.Msa.LemmasWf
 import EaselModel.Msa.LemmasRf3
 import EaselModel.Msa.LemmasSet
 import EaselModel.Msa.LemmasSample
+import EaselModel.Msa.LemmasHist
 /-! # C15 — alignment transformations keep the alignment well formed and the residues intact; WUSS round trips
 
 Property theorems only; proofs are glue on the lemmas of `EaselModel/Msa/Lemmas*.lean`.
@@ -1395,6 +1396,40 @@ example : rfColumn (ratArith (1/2)) isAlpha (fun _ => true) [(0x47, 1), (0x2d, 1
     wsum isAlpha [(0x47, (1 : Rat)), (0x2d, 1)] = 1 := by decide +kernel
 
 
+/-! ## Histories -/
+
+/-- the table facts the transformations use hold for the three alphabets of the working tree -/
+theorem generated_abcOk : AbcOk Gen.rnaAbc ∧ AbcOk Gen.dnaAbc ∧ AbcOk Gen.aminoAbc := by
+  refine ⟨⟨by decide, by decide, ?_, by decide, by decide⟩, ⟨by decide, by decide, ?_, by decide, by decide⟩,
+    ⟨by decide, by decide, ?_, by decide, by decide⟩⟩
+  · intro compl h; cases h; decide
+  · intro compl h; cases h; decide
+  · intro compl h; cases h
+
+/-- FOR EVERY HISTORY: whatever chain (any length, any order, mode switches in between) of successful
+    `esl_msa_ColumnSubset` (hence MinimGaps / NoGaps / their text twins, `compaction_entry_points`),
+    `esl_msa_RemoveBrokenBasepairs`, `esl_msa_Set*` / `esl_msa_Format*` (successful or refused), `esl_msa_Digitize`,
+    `esl_msa_Textize`, `esl_msa_ReverseComplement`, `esl_msa_FlushLeftInserts` and `esl_msa_MarkFragments_old` calls is applied
+    to a well-formed alignment, the alignment reached is
+    well formed, a digital one carries an alphabet and only valid codes of it, a text one carries no alphabet. -/
+theorem history_wellformed (m m' : Msa) (h : Steps m m') (inv : Inv m) :
+    m'.WF ∧ (m'.isDigital = true → ∃ a, AbcOk a ∧ m'.abc = some a ∧ m'.codesOk a) ∧ (m'.isDigital = false → m'.abc = none) :=
+  let i := steps_inv m m' h inv
+  ⟨i.wf, i.dig, i.txt⟩
+
+/-- a text alignment built by the library satisfies the invariant -/
+theorem exRfText_inv : Inv exRfText := by
+  refine ⟨?_, fun h => absurd h (by decide), fun _ => rfl⟩
+  constructor <;> simp [exRfText, Msa.create, strOk, optOk, Msa.rowTerm, Msa.isDigital]
+
+/-- a history of four transformations with two mode switches: digitize, drop column 1, reverse-complement, textize -/
+example : Steps exRfText
+    (textize (reverseComplement (columnSubset (digitize Gen.rnaAbc exRfText).msa [true, false, true, true]).msa).msa).msa :=
+  .tail _ _ _ (.tail _ _ _ (.tail _ _ _ (.tail _ _ _ (.refl _)
+    (.digitize _ _ generated_abcOk.1 (by decide))) (.col _ _ (by decide) (by decide))) (.revcomp _ (by decide))) (.textize _ (by decide))
+example : (textize (reverseComplement (columnSubset (digitize Gen.rnaAbc exRfText).msa [true, false, true, true]).msa).msa).msa.rows =
+    [[0x41, 0x43, 0x55], [0x41, 0x2d, 0x55]] := by decide
+
 /-! ## esl_msa_Set{Name,Desc,Accession,Author,SeqName,SeqAccession,SeqDescription} and their esl_msa_Format* twins -/
 
 /-- every call of the family — whatever the field, index, string and length, successful or refused — leaves the residues,
@@ -1425,6 +1460,12 @@ theorem formatStr_is_setStr (m : Msa) (hs : m.Shape) (f : StrField) (idx : Int) 
       (formatStr m f idx out).msa.sqdesc[j]? = m.sqdesc[j]? :=
   ⟨formatStr_eq_setStr m f idx out, formatStr_same m f idx out, formatStr_shape m hs f idx out,
    formatStr_fail_unchanged m f idx out, formatStr_others m f idx out⟩
+
+/-- "... all yield a well-formed alignment": every call of the Set / Format family, successful or refused, keeps the
+    alignment well formed -/
+theorem setStr_wellformed (m : Msa) (wf : m.WF) (f : StrField) (idx : Int) (s : Option Bytes) (n : Int) :
+    (setStr m f idx s n).msa.WF ∧ (formatStr m f idx s).msa.WF :=
+  ⟨setStr_wf m wf f idx s n, formatStr_wf m wf f idx s⟩
 
 def exSet : Msa := { Msa.create 2 4 with sqname := [[0x61], [0x62]] }
 example : exSet.Shape := by constructor <;> decide
